@@ -6,6 +6,7 @@ import (
 	"strconv"
 
 	metav1 "k8s.io/apimachinery/pkg/apis/meta/v1"
+	"k8s.io/apimachinery/pkg/util/intstr"
 
 	"github.com/DataDog/extendeddaemonset/zzverif/fakeapi"
 	"github.com/DataDog/extendeddaemonset/zzverif/nondet"
@@ -133,3 +134,55 @@ func ZZ_C03_budget() { zzC03(zzNumNodes(3, 4), false) }
 
 // ZZ_C03_budgetPercent: percentages.
 func ZZ_C03_budgetPercent() { zzC03(zzNumNodes(3, 4), true) }
+
+// ZZ_C03_percentLarge: "resolved against the number of targeted nodes, rounding up" on clusters
+// large enough for rounding to matter: N targeted nodes, each with an outdated available pod
+// (U = 0), maxUnavailable given as a percentage: at most ceil(pct*N/100) pods are deleted, and —
+// budget permitting — exactly that many.
+func ZZ_C03_percentLarge() {
+	n := 25
+	switch nondet.String("nodes", "25", "50", "100") {
+	case "50":
+		n = 50
+	case "100":
+		n = 100
+	}
+	pct := 0
+	switch nondet.String("maxUnavailable", "1%", "7%", "14%", "28%", "34%", "55%", "56%", "100%") {
+	case "1%":
+		pct = 1
+	case "7%":
+		pct = 7
+	case "14%":
+		pct = 14
+	case "28%":
+		pct = 28
+	case "34%":
+		pct = 34
+	case "55%":
+		pct = 55
+	case "56%":
+		pct = 56
+	default:
+		pct = 100
+	}
+	ds := zzDaemonset(map[string]string{})
+	v := intstr.FromString(strconv.Itoa(pct) + "%")
+	ds.Spec.Strategy.RollingUpdate.MaxUnavailable = &v
+	rs := zzReplicaSet()
+	cats := make([]int, n)
+	for i := range cats {
+		cats[i] = zzOutdatedAvailable
+	}
+	params, _ := zzParams(ds, rs, cats)
+	res, err := ManageDeployment(fakeapi.New(), ds, params, metav1.Now())
+	nondet.Assert("C03.large.noerror", err == nil)
+	if err != nil {
+		return
+	}
+	want := (pct*n + 99) / 100 // integer ceiling
+	nondet.Assert("C03.large.rounded-up-budget", len(res.PodsToDelete) == want)
+	nondet.Observe("nDelete", len(res.PodsToDelete))
+	nondet.Reach("C03.large.exact-multiple", pct*n%100 == 0 && pct < 100)
+	nondet.Reach("C03.large.rounds-up", pct*n%100 != 0)
+}
